@@ -6,6 +6,31 @@ from sim import kernel, seams, prims
 from worlds import common
 
 
+class InjectedFault(Exception):
+  """raised by a faulty subscriber queue (fault injection: a failing call inside a delivery)"""
+
+
+class FaultyDeque(prims.SimDeque):
+  """a subscriber queue whose append/appendleft raises at drawn call indices"""
+
+  def _maybe_fail(self):
+    n = getattr(self, '_calls', 0)
+    self._calls = n + 1
+    if n in getattr(self, '_fail_at', ()):
+      s = kernel.current_sim()
+      if s is not None:
+        s.fault('subscriber_append_raises')
+      raise InjectedFault('injected: subscriber queue refuses delivery #%d' % n)
+
+  def append(self, x):
+    self._maybe_fail()
+    return prims.SimDeque.append(self, x)
+
+  def appendleft(self, x):
+    self._maybe_fail()
+    return prims.SimDeque.appendleft(self, x)
+
+
 class FabricRun(object):
 
   def __init__(self, sc, sim):
@@ -38,6 +63,10 @@ class FabricRun(object):
       if q['kind'] == 'locking':
         o = ao.LockingDeque()
         inner = o.deque
+      elif q['kind'] == 'faulty':
+        o = FaultyDeque(maxlen=q.get('maxlen', 500))
+        o._fail_at = tuple(q.get('fail_at', (0,)))
+        inner = o
       else:
         o = prims.SimDeque(maxlen=q.get('maxlen', 500))
         inner = o
